@@ -221,7 +221,14 @@ type ProprietaryMACCommandPayload struct {
 
 // MarshalBinary marshals the object into a slice of bytes.
 func (p ProprietaryMACCommandPayload) MarshalBinary() ([]byte, error) {
-	return p.Bytes, nil
+	if p.Bytes == nil {
+		return nil, nil
+	}
+	// return a copy, the caller must not be able to modify the payload
+	// through the returned slice (and vice versa)
+	out := make([]byte, len(p.Bytes))
+	copy(out, p.Bytes)
+	return out, nil
 }
 
 // UnmarshalBinary decodes the object from a slice of bytes.
